@@ -7,6 +7,7 @@ import (
 	"math/rand/v2"
 	"os"
 	"strings"
+	"time"
 
 	"github.com/notaryproject/notation-go"
 	"github.com/notaryproject/notation-go/verifier/trustpolicy"
@@ -24,7 +25,7 @@ func init() { core.Register(c10{}) }
 
 func (c10) ID() string { return "C10" }
 func (c10) Rule() string {
-	return "plans: a listing of 0-6 signatures each valid / invalid / unfetchable, split into pages (empty pages, boundaries at and around N), limit N in -1..7, reference kind (tag, matching digest, mismatching digest, none, malformed), skip vs non-skip level, verifier with or without the skip probe, registry faults (resolve error, list error after page p, transient fetch errors) injected at the repository seam; stack A: scripted repository and verifier with an exact call-log model; stack B (every 4th plan): real registry.NewRepository over an in-memory OCI store wrapped by a paging, order-fixing, fault-injecting target, real signatures and the real verifier. non-trivial: the listing is non-empty and the call got as far as listing; distinct: hash of (knobs, listing, pages, faults, verdict)"
+	return "plans (a third of them on a repository client that holds its pages and has served an earlier verification with another limit): a listing of 0-6 signatures each valid / invalid / unfetchable, split into pages (empty pages, boundaries at and around N), limit N in -1..7, reference kind (tag, matching digest, mismatching digest, none, malformed), skip vs non-skip level, verifier with or without the skip probe, registry faults (resolve error, list error after page p, transient fetch errors) injected at the repository seam; stack A: scripted repository and verifier with an exact call-log model; stack B (every 4th plan): real registry.NewRepository over an in-memory OCI store wrapped by a paging, order-fixing, fault-injecting target, real signatures and the real verifier. non-trivial: the listing is non-empty and the call got as far as listing; distinct: hash of (knobs, listing, pages, faults, verdict)"
 }
 func (c10) Components() map[string]string {
 	return map[string]string{
@@ -63,6 +64,10 @@ func (c10) Gen(r *rand.Rand, tier string, idx int) *core.Plan {
 	p.World["skipper"] = int64(core.Pick(r, 1, 1, 1, 0))
 	p.World["trailingEmptyPage"] = int64(r.IntN(2))
 	p.World["stack"] = 0
+	if idx%3 == 2 {
+		// the same repository client served an earlier verification with another limit, and keeps its listing
+		p.World["earlier"] = int64(1 + idx/3%3)
+	}
 	if idx%4 == 3 {
 		p.World["stack"] = 1
 		p.World["remote"] = int64(r.IntN(2)) // present the store as a remote registry (two endpoints)
@@ -96,6 +101,21 @@ type c10Repository struct {
 	listing [][]string // pages of entry kinds
 	log     *[]c10Call
 	desc    ocispec.Descriptor
+	// kept != nil: the repository client holds its listing (as one that caches referrers does) and hands out the
+	// pages it holds instead of building them anew for every call
+	kept [][]ocispec.Descriptor
+}
+
+func (r *c10Repository) keep() {
+	i := 0
+	for _, page := range r.listing {
+		var descs []ocispec.Descriptor
+		for range page {
+			descs = append(descs, sigDesc(i))
+			i++
+		}
+		r.kept = append(r.kept, descs)
+	}
 }
 
 func sigDesc(i int) ocispec.Descriptor {
@@ -124,6 +144,9 @@ func (r *c10Repository) ListSignatures(ctx context.Context, desc ocispec.Descrip
 		for range page {
 			descs = append(descs, sigDesc(i))
 			i++
+		}
+		if r.kept != nil {
+			descs = r.kept[pi]
 		}
 		*r.log = append(*r.log, c10Call{"page", fmt.Sprint(pi, ":", len(page)), false})
 		if err := fn(descs); err != nil {
@@ -254,10 +277,23 @@ func (l c10) Exec(env *core.Env) *core.Result {
 		err      error
 		returned bool
 	)
+	earlierDone := p.W("earlier") == 0
 	sim.Go("client", func() {
+		rt.WaitUntil("the earlier verification", func() bool { return earlierDone }, time.Time{})
 		gotDesc, outcomes, err = notation.Verify(context.Background(), ver, repo, notation.VerifyOptions{ArtifactReference: ref, MaxSignatureAttempts: N})
 		returned = true
 	})
+	if !earlierDone {
+		repo.keep()
+		sim.Go("earlier-client", func() {
+			var log []c10Call
+			early := c10Verifier{log: &log, outcomes: map[string]*notation.VerificationOutcome{}, skip: base.skip}
+			notation.Verify(context.Background(), &early, repo, notation.VerifyOptions{ArtifactReference: c10Repo + ":v1", MaxSignatureAttempts: int(p.W("earlier"))})
+			repoLog = nil
+			earlierDone = true
+			res.Probe("verified_through_a_repository_client_that_served_an_earlier_verification")
+		})
+	}
 	sim.Run()
 	core.FinishSim(res, sim)
 	core.ReportPanics(res, sim, "C10")
